@@ -42,7 +42,7 @@ VARIABLES cid,     \* id of the catalogue entry
 vars == <<cid, expect, ll, order, gd, input, seq, oi, pos, todo, stack, budget, pc, defined>>
 
 Nil == [nil |-> TRUE, dx |-> 0, dy |-> 0, da |-> 0]     \* absent value record
-InitAdv(g) == 100 * g                                     \* advance of input glyph g
+InitAdv(g) == 10 * (g % 300)                                    \* advance of input glyph g
 
 Concat(ss) == FoldLeft(LAMBDA a, b : a \o b, <<>>, ss)
 
@@ -255,12 +255,33 @@ FixStack(stk, r) ==
   ELSE IF Len(r.mrg) > 1 THEN [j \in 1..Len(stk) |-> FixMrg(stk[j], r.mrg)]
   ELSE stk
 
-\* A.6(a): a child match or rewrite is inside the region only if every glyph it touched is an
-\* input glyph of every entry on the stack, and a ligature formed inside a contextual rule has
-\* contiguous components (testcases section 4: implementations disagree otherwise)
+\* A.6(a): region of defined behaviour for rewrites made by nested lookups.  The repository documents
+\* (testcases sections 2 and 3) that a child may match and rewrite glyphs the parent ignored, that
+\* positions are interpreted when the child runs, and that removed/added glyphs shift later positions.
+\* What stays undefined (testcases section 4) is whether a *replacement of a glyph that is not in the
+\* parent's input sequence* joins that input sequence - which only matters while the parent still has
+\* actions to run.  For an entry e with pending actions a rewrite is therefore inside the region iff
+\*   - it is a contextual match only (nothing rewritten yet), or
+\*   - a ligature whose components are all outside e's input sequence (pure shift), or whose first
+\*     component is an input glyph of e and whose components are contiguous, or
+\*   - any other rewrite that touches input glyphs of e only.
+\* First position from which membership in e's input sequence is ambiguous after rewrite r (0 = none).
+\* Pending actions of e that address input glyphs before that position are unaffected (testcases 2_09).
+AmbigFrom(e, r) ==
+  IF r.push # <<>> THEN 0
+  ELSE IF Len(r.mrg) > 1
+    THEN IF Range(r.mrg) \cap Range(e.ip) = {} THEN 0
+         ELSE IF r.mrg[1] \in Range(e.ip) /\ r.mrg[Len(r.mrg)] - r.mrg[1] + 1 = Len(r.mrg) THEN 0
+         ELSE r.mrg[1]
+    ELSE IF r.touch \subseteq Range(e.ip) THEN 0
+         ELSE CHOOSE q \in r.touch \ Range(e.ip) : \A x \in r.touch \ Range(e.ip) : q <= x
+
 TouchOK(stk, r) ==
-  /\ \A j \in 1..Len(stk) : r.touch \subseteq Range(stk[j].ip)
-  /\ Len(r.mrg) > 1 => r.mrg[Len(r.mrg)] - r.mrg[1] + 1 = Len(r.mrg)
+  \A j \in 1..Len(stk) :
+     LET e == stk[j]
+         q == AmbigFrom(e, r)
+         k == Cardinality({x \in Range(e.ip) : x < q})
+     IN q = 0 \/ \A i \in 1..Len(e.acts) : e.acts[i].idx < k
 
 ---------------------------------------------------------------------------
 (* State machine *)
@@ -338,19 +359,17 @@ Nested ==
                          THEN /\ stack' = stk1 /\ budget' = budget + 1
                               /\ defined' = (defined /\ ~SetMalformed(lk))
                               /\ UNCHANGED <<seq, pos, pc>>
-                         ELSE LET r  == FirstSub(lk.subs, 1, seq, p, stack[k].ep, lk)
-                                  \* second reading: a child may look beyond the parent's end
-                                  r2 == FirstSub(lk.subs, 1, seq, p, Len(seq) + 1, lk)
-                              IN IF ~r.ok
-                                   THEN /\ stack' = stk1 /\ budget' = budget + 1
-                                        /\ defined' = (defined /\ ~r2.ok /\ ~SetMalformed(lk))
-                                        /\ UNCHANGED <<seq, pos, pc>>
-                                   ELSE /\ seq' = r.seq
-                                        /\ stack' = FixStack(stk1, r) \o r.push
-                                        /\ budget' = budget + 1
-                                        /\ defined' = (defined /\ ~r.und /\ r2 = r /\ TouchOK(stk1, r)
-                                                       /\ ~SetMalformed(lk))
-                                        /\ UNCHANGED <<pos, pc>>
+                         ELSE \* a child match cannot extend beyond the parent match (testcases 2_07)
+                              LET r == FirstSub(lk.subs, 1, seq, p, stack[k].ep, lk) IN
+                              IF ~r.ok
+                                THEN /\ stack' = stk1 /\ budget' = budget + 1
+                                     /\ defined' = (defined /\ ~SetMalformed(lk))
+                                     /\ UNCHANGED <<seq, pos, pc>>
+                                ELSE /\ seq' = r.seq
+                                     /\ stack' = FixStack(stk1, r) \o r.push
+                                     /\ budget' = budget + 1
+                                     /\ defined' = (defined /\ ~r.und /\ TouchOK(stk1, r) /\ ~SetMalformed(lk))
+                                     /\ UNCHANGED <<pos, pc>>
   /\ UNCHANGED <<cid, expect, ll, order, gd, input, oi, todo>>
 
 Done == pc = "done"
